@@ -332,11 +332,20 @@ def undefined_cases(res: Result, rng: random.Random, d: Diff, fails: list, n: in
     lists in wire order, grouped as nested objects (real vs model + name oracle)."""
     from realcodec import side, A
     pool = build_pool(d, rng, 50, 3, 10)
+    # values that are "false" in Python (0, empty text / octets) and a second value of the same AVP
+    falsy = [("299.0.64.00000000", "299.0.64.00000001"), ("258.0.64.00000000", "258.0.64.00000004"), ("25.0.64.", "25.0.64.6162"),
+             ("18.0.0.", "18.0.0.6869"), ("266.0.64.00000000", "266.0.64.000028af")]
     for i in range(n):
         k = rng.choice([1, 2, 3, 5, 8])
         avps = [rng.choice(pool) for _ in range(k)]
         if rng.random() < 0.6:
             avps += [rng.choice(avps) for _ in range(rng.randrange(1, 3))]
+        if i % 4 == 0:
+            a0, a1 = falsy[(i // 4) % len(falsy)]
+            seq = [[a0, a1], [a0, a1, a0], [a1, a0], [a0, a0], [a0]][(i // 20) % 5]
+            pos = rng.randrange(len(avps) + 1)
+            avps = [a for a in avps if a.split(".")[:2] != a0.split(".")[:2]]
+            avps[pos:pos] = seq
         body = b"".join(gen.avpobj_wire(a) for a in avps)
         code = rng.choice([999, 8388733, 8388620, 70001])
         hexs = (gen.rfc_header(1, 20 + len(body), 0x80, code, 0, 1, 2) + body).hex()
@@ -373,6 +382,46 @@ def undefined_cases(res: Result, rng: random.Random, d: Diff, fails: list, n: in
         if got_names != names:
             fails.append({"what": "untyped message does not expose every AVP under its normalised name in wire order",
                           "line": f"MSGDEC {hexs[:600]} 0", "real": str(got_names)[:300], "expected": str(names)[:300]})
+            continue
+        # repeated AVPs as lists (one element per occurrence), single ones bare
+        counts = {}
+        for a in avps:
+            c, v = (int(x) for x in a.split(".")[:2])
+            e = A.get_avp_dictionary_entry(c, v)
+            nm = (e["name"] if e else "Unknown").replace("-", "_").lower()
+            counts[nm] = counts.get(nm, 0) + 1
+        pairs, depth, cur = [], 0, ""
+        for ch in got[2:-1]:
+            if ch in "{[":
+                depth += 1
+            elif ch in "}]":
+                depth -= 1
+            if depth == 0 and ch == ";":
+                pairs.append(cur)
+                cur = ""
+            else:
+                cur += ch
+        if cur:
+            pairs.append(cur)
+        for pr in pairs:
+            nm, val = pr.split("=", 1)
+            if val.startswith("N["):
+                inner, depth, elems = val[2:-1], 0, 1 if val[2:-1] else 0
+                for ch in inner:
+                    if ch in "{[":
+                        depth += 1
+                    elif ch in "}]":
+                        depth -= 1
+                    elif ch == "," and depth == 0:
+                        elems += 1
+            else:
+                elems = None
+            want = counts.get(nm, 0)
+            if (want > 1 and elems != want) or (want == 1 and elems is not None):
+                fails.append({"what": f"untyped message: AVP {nm} occurs {want} time(s) but is exposed as "
+                                      f"{'a list of ' + str(elems) if elems is not None else 'a single value'} (repeated AVPs are lists in "
+                                      "wire order, single ones bare)", "line": f"MSGDEC {hexs[:600]} 0", "real": pr[:200]})
+                break
 
 
 def run(res: Result, tier: str, seed: int):
